@@ -54,9 +54,11 @@ const CodeEmpty Code = ""
 // it matches what we'd expect instead of raising validation errors.
 func NormalizeCode(c Code) Code {
 	code := c.String()
-	code = strings.TrimSpace(code)
-	code = codeSeparatorRegexp.ReplaceAllString(code, "$1")
+	// remove invalid characters first so that the separators they leave
+	// behind are collapsed and trimmed in the same pass
 	code = codeInvalidCharsRegexp.ReplaceAllString(code, "")
+	code = codeSeparatorRegexp.ReplaceAllString(code, "$1")
+	code = strings.TrimSpace(code)
 	return Code(code)
 }
 
